@@ -1,6 +1,547 @@
-//! C14 rig (see DESIGN.md section 3/C14) - filled in by the C14 check.
-use crate::util::Args;
+//! C14 rig (see DESIGN.md section 3/C14): distro ownership versus routing.
+//!
+//! One real `InnerNodeManage` actor (+ `NodeManage` wrapper, a real `RaftClusterRequestSender` whose peers are
+//! unreachable loopback addresses and a real `NamingActor` that receives the range refreshes) per simulated
+//! (n, D, local) view, wired through a `bean_factory::BeanFactory` the way `starter::config_factory` does it.
+//! All views of all cluster sizes 1..5 run concurrently in this process; alive peers are kept alive with
+//! `ActiveNode(id)` once per second, the members of the dead set D are starved until the genuine 15 s liveness
+//! rule (checked on the actor's own 3 s tick) marks them invalid. Then, per view, for a sweep of service keys
+//! covering every residue of `get_hash_value` modulo 60: `QueryOwnerRange` (first element) + `ProcessRange::is_range`
+//! = "do I own it?", `NodeManage::route_addr` = "where would an HTTP write go?".
+use crate::util::{rng, Args, Report};
+use actix::prelude::*;
+use bean_factory::{BeanDefinition, BeanFactory};
+use rand::Rng;
+use rnacos::common::hash_utils::get_hash_value;
+use rnacos::common::AppSysConfig;
+use rnacos::naming::cluster::model::{NamingRouteAddr, ProcessRange};
+use rnacos::naming::cluster::node_manage::{
+    InnerNodeManage, NodeManage, NodeManageRequest, NodeManageResponse, NodeStatus,
+};
+use rnacos::naming::core::NamingActor;
+use rnacos::naming::model::ServiceKey;
+use rnacos::naming::verif_hooks::VerifNamingProbe;
+use rnacos::raft::network::factory::{RaftClusterRequestSender, RaftConnectionFactory};
+use serde_json::{json, Value};
+use std::cell::RefCell;
+use std::collections::{BTreeMap, BTreeSet, HashMap};
+use std::rc::Rc;
+use std::sync::Arc;
+use std::time::{Duration, Instant};
 
-pub fn run(_args: &Args) -> anyhow::Result<()> {
-    anyhow::bail!("not implemented")
+const MAX_N: usize = 5;
+const LCM: usize = 60;
+const BASE_IDS: [u64; 5] = [1, 2, 3, 4, 5];
+/// second id family: same sizes, ids that are not their own position + 1 (an id/position mix-up shows here only)
+const SPARSE_IDS: [u64; 5] = [3, 7, 20, 21, 50];
+
+fn addr_of(id: u64) -> String {
+    // nothing listens on low loopback ports in the sandbox: every peer is unreachable (connection refused)
+    format!("127.0.0.1:{}", 600 + id)
+}
+
+struct View {
+    family: &'static str,
+    ids: Vec<u64>,
+    local: u64,
+    /// nodes the harness currently does NOT keep alive
+    starved: Rc<RefCell<BTreeSet<u64>>>,
+    inner: Addr<InnerNodeManage>,
+    nm: Arc<NodeManage>,
+    naming: Addr<NamingActor>,
+    /// set once the view's statuses were seen to equal the wanted dead set
+    settled_at: Option<Instant>,
+    /// description of what was done to this view before the current phase
+    history: Vec<String>,
+}
+
+impl View {
+    fn n(&self) -> usize {
+        self.ids.len()
+    }
+    fn dead(&self) -> BTreeSet<u64> {
+        self.starved.borrow().clone()
+    }
+    fn group_key(&self) -> (String, usize, Vec<u64>) {
+        (self.family.to_string(), self.n(), self.dead().into_iter().collect())
+    }
+}
+
+async fn make_view(family: &'static str, ids: &[u64], dead: &BTreeSet<u64>, local: u64) -> anyhow::Result<View> {
+    let sys_config = Arc::new(AppSysConfig {
+        raft_node_id: local,
+        raft_node_addr: addr_of(local),
+        naming_health_timeout: 15_000,
+        naming_instance_timeout: 30_000,
+        ..Default::default()
+    });
+    let factory = BeanFactory::new();
+    factory.register(BeanDefinition::from_obj(sys_config.clone()));
+    let naming = NamingActor::new().start();
+    factory.register(BeanDefinition::actor_with_inject_from_obj(naming.clone()));
+    let conn_factory = RaftConnectionFactory::new(60).start();
+    factory.register(BeanDefinition::actor_from_obj(conn_factory.clone()));
+    let sender = Arc::new(RaftClusterRequestSender::new(conn_factory, sys_config.clone()));
+    factory.register(BeanDefinition::from_obj(sender.clone()));
+    let inner = InnerNodeManage::new(local).start();
+    factory.register(BeanDefinition::actor_with_inject_from_obj(inner.clone()));
+    let nm = Arc::new(NodeManage::new(inner.clone()));
+    factory.register(BeanDefinition::from_obj(nm.clone()));
+    let _data = factory.init().await;
+    let nodes: Vec<(u64, Arc<String>)> = ids.iter().map(|i| (*i, Arc::new(addr_of(*i)))).collect();
+    inner
+        .send(NodeManageRequest::UpdateNodes(nodes))
+        .await?
+        .map_err(|e| anyhow::anyhow!("UpdateNodes: {}", e))?;
+    Ok(View {
+        family,
+        ids: ids.to_vec(),
+        local,
+        starved: Rc::new(RefCell::new(dead.clone())),
+        inner,
+        nm,
+        naming,
+        settled_at: None,
+        history: vec![],
+    })
+}
+
+/// what one view says at one moment
+#[derive(Clone, Debug)]
+struct Snapshot {
+    invalid: BTreeSet<u64>,
+    range: ProcessRange,
+    ranges_len: usize,
+    naming_range: Option<(usize, usize)>,
+}
+
+async fn statuses(v: &View) -> anyhow::Result<BTreeSet<u64>> {
+    match v.inner.send(NodeManageRequest::GetAllNodes).await?? {
+        NodeManageResponse::AllNodes(nodes) => {
+            Ok(nodes.iter().filter(|n| n.status != NodeStatus::Valid).map(|n| n.id).collect())
+        }
+        _ => anyhow::bail!("unexpected answer to GetAllNodes"),
+    }
+}
+
+async fn snapshot(v: &View) -> anyhow::Result<Snapshot> {
+    let invalid = statuses(v).await?;
+    let ranges = match v.inner.send(NodeManageRequest::QueryOwnerRange(ProcessRange::new(0, 1))).await?? {
+        NodeManageResponse::OwnerRange(r) => r,
+        _ => anyhow::bail!("unexpected answer to QueryOwnerRange"),
+    };
+    let range = ranges.first().cloned().ok_or_else(|| anyhow::anyhow!("QueryOwnerRange returned no range"))?;
+    let probe = v.naming.send(VerifNamingProbe).await?;
+    let naming_range = probe["current_range"]
+        .as_array()
+        .map(|a| (a[0].as_u64().unwrap_or(0) as usize, a[1].as_u64().unwrap_or(0) as usize));
+    Ok(Snapshot { invalid, range, ranges_len: ranges.len(), naming_range })
+}
+
+/// wait until every view reports exactly its starved set as invalid (bounded); returns the number of unsettled views
+async fn wait_settled(views: &mut [View], min_wait: Duration, bound: Duration) -> usize {
+    let t0 = Instant::now();
+    for v in views.iter_mut() {
+        v.settled_at = None;
+    }
+    tokio::time::sleep(min_wait).await;
+    loop {
+        let mut open = 0;
+        for v in views.iter_mut() {
+            if v.settled_at.is_some() {
+                continue;
+            }
+            match statuses(v).await {
+                Ok(inv) if inv == v.dead() => v.settled_at = Some(Instant::now()),
+                _ => open += 1,
+            }
+        }
+        if open == 0 || t0.elapsed() > bound {
+            return open;
+        }
+        tokio::time::sleep(Duration::from_millis(500)).await;
+    }
+}
+
+fn cause_class(ids: &[u64], dead: &BTreeSet<u64>) -> &'static str {
+    if dead.is_empty() {
+        return "all-nodes-alive";
+    }
+    let min_dead = *dead.iter().next().unwrap();
+    let max_alive = ids.iter().filter(|i| !dead.contains(i)).max().copied().unwrap_or(0);
+    if min_dead < max_alive {
+        "dead-node-id-below-live-node"
+    } else {
+        "dead-nodes-only-above-live-nodes"
+    }
+}
+
+struct Obs {
+    local: u64,
+    snap: Snapshot,
+    /// per key index: does the local range contain it / where does route_addr point (node id, 0 = unknown address)
+    owns: Vec<bool>,
+    route: Vec<u64>,
+    route_raw: Vec<String>,
+    history: Vec<String>,
+}
+
+async fn observe(v: &View, keys: &[(ServiceKey, usize)]) -> anyhow::Result<Obs> {
+    let snap = snapshot(v).await?;
+    let mut owns = Vec::with_capacity(keys.len());
+    let mut route = Vec::with_capacity(keys.len());
+    let mut route_raw = Vec::with_capacity(keys.len());
+    let by_addr: HashMap<String, u64> = v.ids.iter().map(|i| (addr_of(*i), *i)).collect();
+    for (key, h) in keys {
+        owns.push(snap.range.is_range(*h));
+        match v.nm.route_addr(key).await {
+            NamingRouteAddr::Local(i) => {
+                route.push(v.local);
+                route_raw.push(format!("Local({})", i));
+            }
+            NamingRouteAddr::Remote(i, addr) => {
+                route.push(by_addr.get(addr.as_str()).copied().unwrap_or(0));
+                route_raw.push(format!("Remote({},{})", i, addr));
+            }
+        }
+    }
+    Ok(Obs { local: v.local, snap, owns, route, route_raw, history: v.history.clone() })
+}
+
+/// the oracle for one (family, n, D): `obs` holds one observation per alive local view
+fn judge(
+    phase: &str,
+    family: &str,
+    ids: &[u64],
+    dead: &BTreeSet<u64>,
+    obs: &[&Obs],
+    keys: &[(ServiceKey, usize)],
+    fresh: Option<&Vec<Vec<(bool, u64)>>>,
+    rep: &mut Report,
+) -> Vec<Vec<(bool, u64)>> {
+    let cause = cause_class(ids, dead);
+    let alive: Vec<u64> = ids.iter().filter(|i| !dead.contains(i)).copied().collect();
+    let mut table: Vec<Vec<(bool, u64)>> = vec![];
+    let view_desc = |k: usize| -> Value {
+        json!({
+            "phase": phase, "family": family, "node_ids": ids, "dead": dead, "alive": alive,
+            "key": {"namespace": keys[k].0.namespace_id.as_str(), "group": keys[k].0.group_name.as_str(), "service": keys[k].0.service_name.as_str()},
+            "hash_mod_60": keys[k].1 % LCM, "hash_mod_live_count": keys[k].1 % alive.len().max(1),
+            "views": obs.iter().map(|o| json!({
+                "local": o.local, "current_range": [o.snap.range.index, o.snap.range.len], "owns_key": o.owns[k],
+                "route_addr": o.route_raw[k], "route_target_node": o.route[k], "history": o.history,
+            })).collect::<Vec<_>>(),
+        })
+    };
+    for k in 0..keys.len() {
+        rep.evaluations += obs.len() as u64;
+        let owners: Vec<u64> = obs.iter().filter(|o| o.owns[k]).map(|o| o.local).collect();
+        let row: Vec<(bool, u64)> = obs.iter().map(|o| (o.owns[k], o.route[k])).collect();
+        // a violation seen after a recovery is the same finding as on a fresh view only if the fresh view with the same
+        // (n, D) behaves identically; otherwise the state depends on the history and that is a different cause
+        let hist = match fresh {
+            Some(f) if f.get(k) != Some(&row) => "/differs-from-fresh-view-with-same-liveness",
+            _ => "",
+        };
+        let mut symptoms: Vec<&str> = vec![];
+        if owners.is_empty() {
+            symptoms.push("no-owner");
+        } else if owners.len() > 1 {
+            symptoms.push("two-owners");
+        }
+        let targets: BTreeSet<u64> = obs.iter().map(|o| o.route[k]).collect();
+        if targets.iter().any(|t| !alive.contains(t)) {
+            symptoms.push("route-to-node-not-alive");
+        } else if targets.len() > 1 {
+            symptoms.push("live-nodes-route-to-different-nodes");
+        }
+        if owners.len() == 1 && targets.iter().any(|t| *t != owners[0]) && targets.iter().all(|t| alive.contains(t)) && targets.len() == 1 {
+            symptoms.push("route-differs-from-owner");
+        }
+        for s in symptoms {
+            rep.violation(format!("{}/{}{}", s, cause, hist), view_desc(k));
+        }
+        table.push(row);
+    }
+    table
+}
+
+async fn evaluate(
+    phase: &str,
+    views: &[View],
+    keys: &[(ServiceKey, usize)],
+    fresh: Option<&BTreeMap<(String, usize, Vec<u64>), Vec<Vec<(bool, u64)>>>>,
+    rep: &mut Report,
+) -> anyhow::Result<BTreeMap<(String, usize, Vec<u64>), Vec<Vec<(bool, u64)>>>> {
+    let mut groups: BTreeMap<(String, usize, Vec<u64>), Vec<Obs>> = BTreeMap::new();
+    for v in views {
+        if v.settled_at.is_none() {
+            rep.count(&format!("{}_views_not_settled", phase), 1);
+            continue;
+        }
+        let o = observe(v, keys).await?;
+        if o.snap.invalid != v.dead() {
+            // liveness moved between the settle check and the observation: not a view this oracle speaks about
+            rep.count(&format!("{}_views_moved_during_observation", phase), 1);
+            continue;
+        }
+        rep.count(&format!("{}_views_observed", phase), 1);
+        groups.entry(v.group_key()).or_default().push(o);
+    }
+    let mut tables = BTreeMap::new();
+    // smallest clusters first so that the first witness kept per signature is a minimal one
+    let mut order: Vec<&(String, usize, Vec<u64>)> = groups.keys().collect();
+    order.sort_by_key(|g| (g.0 != "ids-1..n", g.1, g.2.len(), g.2.clone()));
+    for g in order {
+        let obs = &groups[g];
+        let (family, n, dead_v) = (g.0.as_str(), g.1, &g.2);
+        let ids: Vec<u64> = if family == "ids-1..n" { BASE_IDS[..n].to_vec() } else { SPARSE_IDS[..n].to_vec() };
+        let dead: BTreeSet<u64> = dead_v.iter().copied().collect();
+        let alive_n = n - dead.len();
+        // after recoveries several histories can end in the same (n, D', local): one observation per local is judged as
+        // a group, every single one is additionally compared with the fresh view by the caller
+        let mut by_local: BTreeMap<u64, &Obs> = BTreeMap::new();
+        for o in obs.iter() {
+            by_local.entry(o.local).or_insert(o);
+        }
+        if by_local.len() != alive_n {
+            rep.count(&format!("{}_groups_incomplete", phase), 1);
+            continue;
+        }
+        let sorted: Vec<&Obs> = by_local.values().copied().collect();
+        let f = fresh.and_then(|m| m.get(g));
+        let table = judge(phase, family, &ids, &dead, &sorted, keys, f, rep);
+        rep.count(&format!("{}_groups_judged", phase), 1);
+        if !dead.is_empty() {
+            rep.shape(format!("{} {} n={} dead={:?}", phase, family, n, dead_v));
+        } else {
+            rep.count(&format!("{}_groups_all_alive", phase), 1);
+        }
+        // the NamingActor decides heartbeat supervision / take-over with the range it was last sent
+        for o in &sorted {
+            rep.count("naming_range_compared", 1);
+            match o.snap.naming_range {
+                Some((i, l)) if (i, l) == (o.snap.range.index, o.snap.range.len) => {}
+                None if n == 1 => rep.count("naming_range_none_single_node", 1),
+                other => {
+                    let what = if dead.is_empty() && o.history.is_empty() { "all-nodes-alive" } else { "after-liveness-change-without-membership-change" };
+                    rep.violation(
+                        format!("naming-actor-range-differs-from-node-manage-range/{}", what),
+                        json!({"phase": phase, "family": family, "node_ids": ids, "dead": dead, "local": o.local, "history": o.history,
+                               "node_manage_current_range": [o.snap.range.index, o.snap.range.len],
+                               "naming_actor_current_range": other.map(|(i, l)| vec![i, l]),
+                               "effect": "NamingActor::update_instance (at_process_range) and refresh_process_range (re-arming taken-over instances) keep using the stale range"}),
+                    );
+                }
+            }
+        }
+        if rep.samples.len() < 6 && (n == 3 || n == 5) && dead.len() == 1 {
+            rep.samples.push(json!({
+                "phase": phase, "family": family, "node_ids": ids, "dead": dead,
+                "views": sorted.iter().map(|o| json!({"local": o.local, "current_range": [o.snap.range.index, o.snap.range.len], "history_ranges": o.snap.ranges_len - 1,
+                    "naming_actor_range": o.snap.naming_range.map(|(i, l)| vec![i, l]),
+                    "owned_residues_mod_live": (0..alive_n).filter(|r| o.snap.range.is_range(*r)).collect::<Vec<_>>(),
+                    "route_of_first_keys": o.route_raw.iter().take(4).collect::<Vec<_>>()})).collect::<Vec<_>>(),
+            }));
+        }
+        tables.insert(g.clone(), table);
+    }
+    Ok(tables)
+}
+
+fn subsets(ids: &[u64]) -> Vec<BTreeSet<u64>> {
+    let n = ids.len();
+    let mut out = vec![];
+    for mask in 0u32..(1 << n) {
+        let d: BTreeSet<u64> = (0..n).filter(|b| mask & (1 << b) != 0).map(|b| ids[b]).collect();
+        if d.len() < n {
+            out.push(d);
+        }
+    }
+    out.sort_by_key(|d| (d.len(), d.iter().copied().collect::<Vec<_>>()));
+    out
+}
+
+fn make_keys(seed: u64) -> Vec<(ServiceKey, usize)> {
+    let mut r = rng(seed);
+    let mut keys = vec![];
+    let mut seen = BTreeSet::new();
+    let groups = ["DEFAULT_GROUP", "g1", "pay"];
+    let tenants = ["public", "dev", ""];
+    let mut i = 0;
+    while (seen.len() < LCM || keys.len() < 90) && i < 100_000 {
+        i += 1;
+        let key = ServiceKey::new(tenants[r.gen_range(0..3)], groups[r.gen_range(0..3)], &format!("svc-{}-{}", seed % 1000, r.gen_range(0..1_000_000)));
+        let h = get_hash_value(&key) as usize;
+        // keep the sweep small: prefer keys that add a new residue, take a few extra ones at random
+        if seen.insert(h % LCM) || (keys.len() < 90 && r.gen_range(0..4) == 0) {
+            keys.push((key, h));
+        }
+    }
+    keys
+}
+
+async fn run_async(args: &Args) -> anyhow::Result<Report> {
+    let seed = args.u64("seed", 1);
+    let thorough = args.has("recover");
+    let mut rep = Report::default();
+    let keys = make_keys(seed);
+    let residues: BTreeSet<usize> = keys.iter().map(|k| k.1 % LCM).collect();
+    rep.count("keys", keys.len() as u64);
+    rep.count("residues_mod_60_covered", residues.len() as u64);
+    if residues.len() < LCM {
+        rep.inconclusive.push(format!("only {} of 60 residues covered by the key sweep", residues.len()));
+    }
+    // ---- phase 1: every (n, D, local) view, both id families, all waiting for the liveness timer concurrently
+    let t0 = Instant::now();
+    let mut views: Vec<View> = vec![];
+    for (family, all) in [("ids-1..n", &BASE_IDS), ("ids-sparse", &SPARSE_IDS)] {
+        for n in 1..=MAX_N {
+            let ids = &all[..n];
+            for dead in subsets(ids) {
+                for local in ids.iter().filter(|i| !dead.contains(i)) {
+                    views.push(make_view(family, ids, &dead, *local).await?);
+                    *rep.counters.entry(format!("views_{}", family)).or_insert(0) += 1;
+                }
+            }
+        }
+    }
+    rep.count("views_created_ms", t0.elapsed().as_millis() as u64);
+    // keep-alive: what a live peer's Ping / sync traffic does on the receiving node (handle_naming_route -> active_node)
+    let ka: Vec<(Addr<InnerNodeManage>, Vec<u64>, u64, Rc<RefCell<BTreeSet<u64>>>)> =
+        views.iter().map(|v| (v.inner.clone(), v.ids.clone(), v.local, v.starved.clone())).collect();
+    let stop = Rc::new(RefCell::new(false));
+    let stop2 = stop.clone();
+    actix_rt::spawn(async move {
+        while !*stop2.borrow() {
+            for (inner, ids, local, starved) in &ka {
+                let s = starved.borrow().clone();
+                for id in ids {
+                    if id != local && !s.contains(id) {
+                        inner.do_send(NodeManageRequest::ActiveNode(*id));
+                    }
+                }
+            }
+            tokio::time::sleep(Duration::from_millis(1000)).await;
+        }
+    });
+    let open = wait_settled(&mut views, Duration::from_millis(15_500), Duration::from_secs(32)).await;
+    rep.count("phase1_settle_ms", t0.elapsed().as_millis() as u64);
+    if open > 0 {
+        rep.inconclusive.push(format!("{} views did not reach their liveness pattern within 32 s", open));
+    }
+    // positive control of the starvation itself: a starved node really was Valid first and became Invalid by the timer
+    let fresh = evaluate("fresh", &views, &keys, None, &mut rep).await?;
+
+    if thorough {
+        // ---- phase 2: recoveries. In every view with a dead node: revive the smallest dead node, let the range follow
+        // (next 3 s tick), then starve another live peer (if there is one). The resulting liveness pattern D' is again one
+        // of the enumerated ones, so the fresh view with the same (n, D') is the reference for history dependence.
+        let mut r = rng(seed ^ 0x5eed);
+        let mut moved: Vec<usize> = vec![];
+        for (i, v) in views.iter_mut().enumerate() {
+            let dead = v.dead();
+            if dead.is_empty() || v.settled_at.is_none() {
+                continue;
+            }
+            let revive = *dead.iter().next().unwrap();
+            v.starved.borrow_mut().remove(&revive);
+            v.inner.do_send(NodeManageRequest::ActiveNode(revive));
+            v.history.push(format!("dead={:?}; revived {}", dead, revive));
+            moved.push(i);
+        }
+        tokio::time::sleep(Duration::from_millis(4000)).await;
+        for i in &moved {
+            let v = &mut views[*i];
+            let dead = v.dead();
+            let cands: Vec<u64> = v.ids.iter().copied().filter(|x| *x != v.local && !dead.contains(x)).collect();
+            // seeded choice among all live peers (may be the node that was just revived: "flapping")
+            if !cands.is_empty() {
+                let s = cands[r.gen_range(0..cands.len())];
+                v.starved.borrow_mut().insert(s);
+                v.history.push(format!("then starved {}", s));
+            }
+        }
+        let mut sub: Vec<View> = vec![];
+        let mut rest: Vec<View> = vec![];
+        for (i, v) in views.into_iter().enumerate() {
+            if moved.contains(&i) {
+                sub.push(v)
+            } else {
+                rest.push(v)
+            }
+        }
+        let t1 = Instant::now();
+        let open = wait_settled(&mut sub, Duration::from_millis(15_500), Duration::from_secs(32)).await;
+        rep.count("phase2_settle_ms", t1.elapsed().as_millis() as u64);
+        if open > 0 {
+            rep.inconclusive.push(format!("{} recovered views did not reach their liveness pattern within 32 s", open));
+        }
+        // let one more tick pass so that a range change triggered by the last status change has been applied
+        tokio::time::sleep(Duration::from_millis(3500)).await;
+        let mut by_group: BTreeMap<(String, usize, Vec<u64>), usize> = BTreeMap::new();
+        for v in &sub {
+            *by_group.entry(v.group_key()).or_insert(0) += 1;
+        }
+        rep.count("phase2_views", sub.len() as u64);
+        // groups after recovery are judged per (n, D') only when all alive locals of that pattern are present; the rest
+        // is still compared view-by-view against the fresh view (ownership + routing must be a function of the liveness view)
+        for v in &sub {
+            if v.settled_at.is_none() {
+                continue;
+            }
+            let o = observe(v, &keys).await?;
+            if o.snap.invalid != v.dead() {
+                rep.count("recovered_views_moved_during_observation", 1);
+                continue;
+            }
+            rep.count("recovered_views_compared_with_fresh_view", 1);
+            let g = v.group_key();
+            let cause = cause_class(&v.ids, &v.dead());
+            if let Some(ft) = fresh.get(&g) {
+                let alive: Vec<u64> = v.ids.iter().copied().filter(|x| !v.dead().contains(x)).collect();
+                let pos = alive.iter().position(|x| *x == v.local).unwrap();
+                let mut diff = None;
+                for k in 0..keys.len() {
+                    rep.evaluations += 1;
+                    if ft[k][pos] != (o.owns[k], o.route[k]) {
+                        diff = Some(k);
+                        break;
+                    }
+                }
+                rep.shape(format!("recovered {} n={} dead={:?}", v.family, v.n(), g.2));
+                if let Some(k) = diff {
+                    rep.violation(
+                        format!("ownership-or-route-depends-on-history/{}", cause),
+                        json!({"family": v.family, "node_ids": v.ids, "local": v.local, "dead_now": v.dead(), "history": v.history,
+                               "key_hash_mod_60": keys[k].1 % LCM, "fresh_view": {"owns": ft[k][pos].0, "route_target": ft[k][pos].1},
+                               "after_recovery": {"owns": o.owns[k], "route_target": o.route[k], "route_addr": o.route_raw[k], "current_range": [o.snap.range.index, o.snap.range.len]}}),
+                    );
+                }
+            }
+            // the stale-range observation, on views whose membership never changed but whose liveness changed twice
+            rep.count("naming_range_compared", 1);
+            match o.snap.naming_range {
+                Some((i, l)) if (i, l) == (o.snap.range.index, o.snap.range.len) => {}
+                None if v.n() == 1 => {}
+                other => rep.violation(
+                    "naming-actor-range-differs-from-node-manage-range/after-liveness-change-without-membership-change".to_string(),
+                    json!({"phase": "recovered", "family": v.family, "node_ids": v.ids, "dead": v.dead(), "local": v.local, "history": v.history,
+                           "node_manage_current_range": [o.snap.range.index, o.snap.range.len], "naming_actor_current_range": other.map(|(i, l)| vec![i, l])}),
+                ),
+            }
+        }
+        // full group judgement for the patterns that are complete after the recovery step
+        let _ = evaluate("recovered", &sub, &keys, Some(&fresh), &mut rep).await?;
+        drop(rest);
+    }
+    *stop.borrow_mut() = true;
+    rep.count("total_ms", t0.elapsed().as_millis() as u64);
+    Ok(rep)
+}
+
+pub fn run(args: &Args) -> anyhow::Result<()> {
+    let sys = actix_rt::System::new();
+    let rep = sys.block_on(run_async(args))?;
+    rep.write(args)
 }
